@@ -152,12 +152,14 @@ META = {
         "text": "Theorems (Coq, closed) about the session lifecycle model Session/SessLife.v, for every interleaving of begin, end, end_with_error, drop and "
                 "cancelled end with a protocol-abiding peer: the channel carries one begin, at most one end and nothing after; a peer's end is answered in "
                 "the same step unless ours is already out; end()/end_with_error() complete only in the step that consumes the peer's end (or later from the "
-                "stored result) and report the peer's error. The model is run against the real session engine every run. The link clauses are decided by a "
-                "direct oracle on generated session+link scripts against the real engines (no Coq model): partial.",
+                "stored result) and report the peer's error. About the sender-link model Link/LinkLife.v: after its detach the link writes no transfer and no "
+                "second detach except in one named transition (refutation witness given); an unseen peer detach is answered by the next operation, in kind for "
+                "close/drop/blocked send (detach() after a closing detach is not: witness); detach()/close() return only on the peer's detach and carry its error. "
+                "Both models are run against the real engines every run; session+link scripts are also checked by a direct oracle.",
         "design_ref": "DESIGN.md section 4, C13",
-        "note": "Trusted: Coq kernel, extraction, scripted-peer harness. Partial: link lifecycle not modelled. Known findings: c13-second-detach, "
-                "c13-detach-kind, c13-peer-detach-error-lost (detach/close crossing a peer detach of the other kind).",
-        "technique": "Coq proof (state invariant over event lists) + extracted-model-vs-engine correspondence; link clauses by direct oracle only (partial)",
+        "note": "Trusted: Coq kernel, extraction, scripted-peer harness. Partial: receiving-link lifecycle by direct oracle only; link clauses proved with named exceptions. "
+                "Known findings: c13-second-detach, c13-detach-kind, c13-peer-detach-error-lost, c13-transfer-after-remote-detach.",
+        "technique": "Coq proof (state invariants over event lists, case analysis of the step function) + extracted-model-vs-engine correspondence; direct oracle on combined scripts",
     },
     "C19": {
         "text": "Theorems (Coq, closed) about the model of the listener's SASL layer (Auth/SaslListener.v): whatever the client does, if the listener ever writes "
